@@ -140,8 +140,12 @@ def _run_shard_subprocess(prop, spec, workdir):
     timeout = spec.get('timeout', 900)
     cmd = [PY, os.path.join(VERIF, 'vcheck'), prop, '--shard', spec_path, '--out', out_path]
     t0 = time.time()
+    def limit():
+        if spec.get('build') != 'asan':
+            import resource
+            resource.setrlimit(resource.RLIMIT_AS, (8 << 30, 8 << 30))
     try:
-        p = subprocess.run(cmd, env=env, capture_output=True, text=True, timeout=timeout, cwd=VERIF)
+        p = subprocess.run(cmd, env=env, capture_output=True, text=True, timeout=timeout, cwd=VERIF, preexec_fn=limit)
         rc, err = p.returncode, (p.stderr or '')[-4000:]
     except subprocess.TimeoutExpired as e:
         rc, err = 'timeout', ((e.stderr.decode('utf-8', 'replace') if isinstance(e.stderr, bytes) else e.stderr) or '')[-2000:]
